@@ -331,7 +331,7 @@ Qed.
 
 Lemma neg_args_part1 s0 : lookup wild s0 = None -> forall args0 m pvs, 0 <= m -> unb_from s0 m ->
   map_opt (eval_term s0) (snd (rw_terms m args0)) = Some pvs ->
-  (forall t, In t args0 -> t <> TVar wild -> forall v, In v (term_vars t) -> bnd s0 v) ->
+  (forall t, In t args0 -> t <> TVar wild -> forall v, In v (term_vars t) -> v <> wild -> bnd s0 v) ->
   forall t, In t args0 -> t = TVar wild \/ exists c, eval_term s0 t = Some (VConst c).
 Proof.
   intros Hw. induction args0 as [|a args0 IH]; intros m pvs Hm Hu Hmap Hb t Ht; [destruct Ht|].
@@ -346,7 +346,7 @@ Proof.
     destruct (eval_rw s0 Hw a m Hm Hu) as [_ Ev]. rewrite E1 in Ev. simpl in Ev.
     rewrite (Ev Hnw) in Ea. destruct pv as [c|w]; [eauto|].
     apply eval_term_var_inv in Ea as [-> Hl]. exfalso.
-    apply (Hb (TVar w) (or_introl eq_refl) Hnw w); [simpl; auto|exact Hl].
+    apply (Hb (TVar w) (or_introl eq_refl) Hnw w); [simpl; auto|intros ->; apply Hnw; reflexivity|exact Hl].
   - eapply (IH pvs' Hn1 (unb_from_le _ _ _ Hu A1) eq_refl); eauto.
     intros t' Ht'. apply Hb. right. exact Ht'.
 Qed.
@@ -425,7 +425,7 @@ Proof.
     assert (Hev' : map_opt (eval_term s) (snd (rw_terms n (aargs a))) = Some pvs) by (rewrite Er; exact Hev).
     split; [apply valext_refl|]. simpl.
     assert (P1 : forall t, In t (aargs a) -> t = TVar wild \/ exists c, eval_term s t = Some (VConst c)).
-    { eapply neg_args_part1; eauto. intros t Ht Hnw v Hv. eapply has_value_bnd; eauto.
+    { eapply neg_args_part1; eauto. intros t Ht Hnw v Hv _. eapply has_value_bnd; eauto.
       apply Eb. unfold terms_vars. apply in_flat_map. exists t. split; [|exact Hv].
       apply filter_In. split; [exact Ht|]. destruct t as [x| |]; auto.
       destruct (Z.eqb_spec x wild); [subst; congruence|reflexivity]. }
@@ -534,28 +534,223 @@ Proof.
     destruct (rw_term n1 r) as [n2 r'] eqn:E2. simpl in *.
     destruct Ht as [[-> (c & Hc)]|[[-> (c & Hc)]|(c & Hl & Hr)]].
     + rewrite rw_term_wild in E1. injection E1 as <- <-.
-      exists ((n, c) :: s). eapply holds_pure; [|left; reflexivity].
-      rewrite step_pure_eq_unfold. rewrite (cval_some _ _ _ (eq_trans Cr (cval_of _ _ _ Hc))).
-      simpl. rewrite (Hu n) by lia. reflexivity.
+      exists ((n, c) :: s). eapply holds_pure; [      rewrite step_pure_eq_unfold; rewrite (cval_some _ _ _ (eq_trans Cr (cval_of _ _ _ Hc))); simpl; rewrite (Hu n) by lia; reflexivity|left; reflexivity].
     + rewrite rw_term_wild in E2. injection E2 as <- <-.
-      exists ((n1, c) :: s). eapply holds_pure; [|left; reflexivity].
-      rewrite step_pure_eq_unfold. rewrite (cval_some _ _ _ (eq_trans Cl (cval_of _ _ _ Hc))).
-      simpl. rewrite (Hu n1) by lia. reflexivity.
-    + exists s. eapply holds_pure; [|left; reflexivity].
-      rewrite step_pure_eq_unfold. rewrite (cval_some _ _ _ (eq_trans Cl (cval_of _ _ _ Hl))).
-      rewrite (cval_some _ _ _ (eq_trans Cr (cval_of _ _ _ Hr))). rewrite const_eqb_refl. reflexivity.
+      exists ((n1, c) :: s). eapply holds_pure; [      rewrite step_pure_eq_unfold; rewrite (cval_some _ _ _ (eq_trans Cl (cval_of _ _ _ Hc))); simpl; rewrite (Hu n1) by lia; reflexivity|left; reflexivity].
+    + exists s. eapply holds_pure; [      rewrite step_pure_eq_unfold; rewrite (cval_some _ _ _ (eq_trans Cl (cval_of _ _ _ Hl))); rewrite (cval_some _ _ _ (eq_trans Cr (cval_of _ _ _ Hr))); rewrite const_eqb_refl; reflexivity|left; reflexivity].
   - destruct (rw2_facts s l r n Hw Hn Hu) as (Hn1 & Cl & Cr & El & Er).
     simpl. destruct (rw_term n l) as [n1 l'] eqn:E1. simpl in *.
     destruct (rw_term n1 r) as [n2 r'] eqn:E2. simpl in *.
     destruct Ht as (a & b & Ha & Hb & Hne).
-    exists s. eapply holds_pure; [|left; reflexivity].
-    rewrite step_pure_ineq_unfold. rewrite (cval_some _ _ _ (eq_trans Cl (cval_of _ _ _ Ha))).
-    rewrite (cval_some _ _ _ (eq_trans Cr (cval_of _ _ _ Hb))). rewrite Hne. reflexivity.
+    exists s. eapply holds_pure; [    rewrite step_pure_ineq_unfold; rewrite (cval_some _ _ _ (eq_trans Cl (cval_of _ _ _ Ha))); rewrite (cval_some _ _ _ (eq_trans Cr (cval_of _ _ _ Hb))); rewrite Hne; reflexivity|left; reflexivity].
   - destruct (rw2_facts s l r n Hw Hn Hu) as (Hn1 & Cl & Cr & El & Er).
     simpl. destruct (rw_term n l) as [n1 l'] eqn:E1. simpl in *.
     destruct (rw_term n1 r) as [n2 r'] eqn:E2. simpl in *.
     destruct Ht as (a & b & Ha & Hb & Hc).
-    exists s. eapply holds_pure; [|left; reflexivity].
-    rewrite step_pure_cmp_unfold. rewrite (cval_some _ _ _ (eq_trans Cl (cval_of _ _ _ Ha))).
-    rewrite (cval_some _ _ _ (eq_trans Cr (cval_of _ _ _ Hb))). rewrite Hc. reflexivity.
+    exists s. eapply holds_pure; [    rewrite step_pure_cmp_unfold; rewrite (cval_some _ _ _ (eq_trans Cl (cval_of _ _ _ Ha))); rewrite (cval_some _ _ _ (eq_trans Cr (cval_of _ _ _ Hb))); rewrite Hc; reflexivity|left; reflexivity].
+Qed.
+
+(* ================= along the join ================= *)
+Lemma bnd_cons_inv x c s v : bnd ((x, c) :: s) v -> v = x \/ bnd s v.
+Proof. unfold bnd. simpl. destruct (Z.eqb_spec v x); auto. Qed.
+
+Lemma unify1_dom s pv c u v : unify1 s pv c = Some u -> bnd u v -> bnd s v \/ pv = VVar v.
+Proof.
+  destruct pv as [d|w]; simpl.
+  - destruct (const_eqb d c); [|discriminate]. intros [= <-] H. left; exact H.
+  - destruct (lookup w s) as [d|] eqn:E.
+    + destruct (const_eqb d c); [|discriminate]. intros [= <-] H. left; exact H.
+    + intros [= <-] H. apply bnd_cons_inv in H as [-> | H]; [right; reflexivity|left; exact H].
+Qed.
+
+Lemma unify_args_dom pvs : forall s cs u v,
+  unify_args s pvs cs = Some u -> bnd u v -> bnd s v \/ In (VVar v) pvs.
+Proof.
+  induction pvs as [|pv pvs IH]; intros s cs u v Hu Hb; destruct cs as [|c cs]; simpl in Hu; try discriminate.
+  - injection Hu as <-. left; exact Hb.
+  - destruct (unify1 s pv c) as [s1|] eqn:E1; [|discriminate].
+    destruct (IH _ _ _ _ Hu Hb) as [H|H]; [|right; right; exact H].
+    destruct (unify1_dom _ _ _ _ _ E1 H) as [H' | ->]; [left; exact H'|right; left; reflexivity].
+Qed.
+
+(* a premise gives values only to its own variables *)
+Lemma holds_dom N I p s u v : holds N I p s u -> bnd u v -> bnd s v \/ In v (premise_vars p).
+Proof.
+  intros H Hb. destruct H as [a s pvs f u He Hf Hm | a s pvs He Hall | p s us u He Hu].
+  - unfold match_fact in Hm. destruct (Z.eqb (fst f) (apred a)); [|discriminate].
+    destruct (unify_args_dom _ _ _ _ _ Hm Hb) as [H|H]; [left; exact H|right].
+    destruct (map_opt_spec _ _ _ He) as [_ Hin]. apply Hin in H as (t & Ht & Hev).
+    apply eval_term_var_inv in Hev as [-> _]. simpl. unfold atom_vars, terms_vars.
+    apply in_flat_map. exists (TVar v). simpl; auto.
+  - left; exact Hb.
+  - destruct p as [a|a|l r|l r|op l r]; try (simpl in He; discriminate).
+    + rewrite step_pure_eq_unfold in He.
+      destruct (eval_term s l) as [[a|x]|] eqn:El; destruct (eval_term s r) as [[b|y]|] eqn:Er;
+        try discriminate.
+      * injection He as <-. destruct (const_eqb a b); [|destruct Hu]. destruct Hu as [<-|[]]. left; exact Hb.
+      * injection He as <-. destruct Hu as [<-|[]]. apply bnd_cons_inv in Hb as [-> | Hb]; [right|left; exact Hb].
+        apply eval_term_var_inv in Er as [-> _]. simpl. apply in_or_app. right. simpl; auto.
+      * injection He as <-. destruct Hu as [<-|[]]. apply bnd_cons_inv in Hb as [-> | Hb]; [right|left; exact Hb].
+        apply eval_term_var_inv in El as [-> _]. simpl. auto.
+      * destruct (Z.eqb x y); [|discriminate]. injection He as <-. destruct Hu as [<-|[]]. left; exact Hb.
+    + rewrite step_pure_ineq_unfold in He.
+      destruct (eval_term s l) as [[a|x]|] eqn:El; destruct (eval_term s r) as [[b|y]|] eqn:Er;
+        try discriminate; injection He as <-; try (destruct Hu; fail).
+      destruct (const_eqb a b); [destruct Hu|]. destruct Hu as [<-|[]]. left; exact Hb.
+    + rewrite step_pure_cmp_unfold in He.
+      destruct (eval_term s l) as [[a|x]|] eqn:El; destruct (eval_term s r) as [[b|y]|] eqn:Er;
+        try discriminate.
+      destruct (eval_cmp op a b) as [[|]|]; try discriminate; injection He as <-; [|destruct Hu].
+      destruct Hu as [<-|[]]. left; exact Hb.
+Qed.
+
+Lemma holds_step Sneg I p s u :
+  holds (inset Sneg) I p s u -> exists us, step Sneg I p s = Some us /\ In u us.
+Proof.
+  intros H. destruct (step Sneg I p s) as [us|] eqn:E.
+  - exists us. split; [reflexivity|]. apply (step_spec _ _ _ _ _ E). exact H.
+  - exfalso. destruct H as [a s pvs f u He Hf Hm | a s pvs He Hall | p s us u He Hu]; simpl in E.
+    + rewrite He in E. discriminate.
+    + rewrite He in E. discriminate.
+    + destruct p; simpl in *; congruence.
+Qed.
+
+Lemma sat_cons_inv N sel k p b s t :
+  sat N sel k (p :: b) s t -> exists u, holds N (sel k) p s u /\ sat N sel (S k) b u t.
+Proof. intros H. inversion H; subst. eauto. Qed.
+Lemma sat_nil_inv N sel k s t : sat N sel k [] s t -> t = s.
+Proof. intros H. inversion H; subst. reflexivity. Qed.
+
+(* the wildcard and the fresh names not yet handed out stay without a value *)
+Lemma dom_step N I o n s u : 0 <= n -> (forall v, In v (premise_vars o) -> v < n) ->
+  lookup wild s = None -> unb_from s n -> holds N I (snd (rw_premise n o)) s u ->
+  lookup wild u = None /\ unb_from u (fst (rw_premise n o)).
+Proof.
+  intros Hn Hlt Hw Hu Hh. destruct (rw_premise_vars o n Hn) as (A1 & A2 & _).
+  assert (K : forall v, bnd u v -> bnd s v \/ (In v (premise_vars o) /\ v <> wild) \/
+                                  n <= v < fst (rw_premise n o)).
+  { intros v Hb. destruct (holds_dom _ _ _ _ _ v Hh Hb) as [H|H]; [left; exact H|right; apply A2, H]. }
+  split.
+  - destruct (lookup wild u) eqn:E; [|reflexivity]. exfalso.
+    assert (Hb : bnd u wild) by (unfold bnd; congruence).
+    destruct (K wild Hb) as [H|[[_ H]|H]]; [exact (H Hw)|congruence|unfold wild in H; lia].
+  - intros w Hwn. destruct (lookup w u) eqn:E; [|reflexivity]. exfalso.
+    assert (Hb : bnd u w) by (unfold bnd; congruence).
+    destruct (K w Hb) as [H|[[H _]|H]].
+    + apply H. apply Hu. lia.
+    + specialize (Hlt w H). lia.
+    + lia.
+Qed.
+
+(* every solution of the join on the replaced body makes every literal as written true *)
+Lemma chain_sound Sneg I b : forall n st st' k s0 s,
+  0 <= n -> (forall o v, In o b -> In v (premise_vars o) -> v < n) ->
+  check_body st b (rw_body n b) = Some st' -> alias_free_body st b (rw_body n b) = true ->
+  Inv st s0 -> lookup wild s0 = None -> unb_from s0 n ->
+  sat (inset Sneg) (fun _ => I) k (rw_body n b) s0 s ->
+  valext s0 s /\ lookup wild s = None /\ forall o, In o b -> lit_true Sneg I o s.
+Proof.
+  induction b as [|o b IH]; intros n st st' k s0 s Hn Hlt Hc Ha Hi Hw Hu Hs.
+  - simpl in Hs. apply sat_nil_inv in Hs. subst s.
+    split; [apply valext_refl|]. split; [exact Hw|intros o []].
+  - simpl in Hs, Hc, Ha. destruct (rw_premise n o) as [n' p] eqn:E.
+    assert (Ep : p = snd (rw_premise n o)) by (rewrite E; reflexivity).
+    assert (En : n' = fst (rw_premise n o)) by (rewrite E; reflexivity).
+    simpl in Hc, Ha.
+    destruct (check_premise st o p) as [st1|] eqn:Ec; [|discriminate].
+    apply andb_true_iff in Ha as [Ha1 Ha2].
+    apply sat_cons_inv in Hs as (u & Hh & Hs'). cbv beta in Hh.
+    rewrite Ep in Hh, Ec, Ha1.
+    destruct (holds_lit_true Sneg I st o n s0 u st1 Hn Hu Hw Ec Ha1 Hi Hh) as [Hx Hlo].
+    destruct (holds_step _ _ _ _ _ Hh) as (us & Hst & Hin).
+    pose proof (check_premise_inv _ _ _ _ Sneg I _ _ _ Ec Ha1 Hi Hst Hin) as Hi1.
+    destruct (dom_step _ _ o n s0 u Hn (fun v => Hlt o v (or_introl eq_refl)) Hw Hu Hh) as [Hw1 Hu1].
+    rewrite <- En in Hu1.
+    destruct (rw_premise_vars o n Hn) as (A1 & _). rewrite <- En in A1.
+    assert (Hn' : 0 <= n') by lia.
+    assert (Hlt' : forall o' v, In o' b -> In v (premise_vars o') -> v < n').
+    { intros o' v Ho' Hv. specialize (Hlt o' v (or_intror Ho') Hv). lia. }
+    destruct (IH n' st1 st' (S k) u s Hn' Hlt' Hc Ha2 Hi1 Hw1 Hu1 Hs') as (Hx2 & Hw2 & Hall).
+    split; [eapply valext_trans; eauto|]. split; [exact Hw2|].
+    intros o' [<-|Ho']; [eapply lit_true_mono; eauto|apply Hall, Ho'].
+Qed.
+
+(* ================= soundness: solutions of the join satisfy the clause as written ================= *)
+Lemma In_dedupZ v l : In v (dedupZ l) <-> In v l.
+Proof.
+  induction l as [|x l IH]; simpl; [tauto|].
+  destruct (memZ x l) eqn:E.
+  - rewrite IH. split; [auto|]. intros [<-|H]; [apply memZ_In, E|exact H].
+  - simpl. rewrite IH. tauto.
+Qed.
+
+Lemma named_vars_in c v :
+  In v (named_vars c) <->
+  (In v (flat_map premise_vars (cbody c)) /\ v <> wild) \/ (In v (atom_vars (chead c)) /\ ~ In v (let_defs c)).
+Proof.
+  unfold named_vars. rewrite In_dedupZ, in_app_iff, !filter_In.
+  split; intros [[H1 H2]|[H1 H2]]; [left|right|left|right]; split; auto.
+  - apply negb_true_iff in H2. apply Z.eqb_neq in H2. exact H2.
+  - apply negb_true_iff in H2. intros X. apply memZ_In in X. congruence.
+  - apply negb_true_iff, Z.eqb_neq. exact H2.
+  - apply negb_true_iff. destruct (memZ v (let_defs c)) eqn:E; [|reflexivity].
+    apply memZ_In in E. contradiction.
+Qed.
+
+Lemma named_vars_clause c v : In v (named_vars c) -> In v (clause_vars c).
+Proof.
+  rewrite named_vars_in. unfold clause_vars.
+  intros [[H _]|[H _]]; apply in_or_app; [right; apply in_or_app; left; exact H|left; exact H].
+Qed.
+
+Lemma accepted_sound_lemma c Sneg I sols s :
+  accepted c = true -> alias_free (rewrite c) = true ->
+  solve Sneg (fun _ => I) 0 (cbody (replace_wildcards (rewrite c))) [[]] = Some sols -> In s sols ->
+  decl_sol Sneg I c (restrict (named_vars c) s).
+Proof.
+  intros Hacc Haf Hsol Hin.
+  pose proof (rewrite_perm_body c) as HP.
+  pose proof (fresh_base_pos (rewrite c)) as Hbase.
+  pose proof Hin as Hin0.
+  apply (solve_spec _ _ _ _ _ _ Hsol) in Hin as (s0 & [<-|[]] & Hsat).
+  unfold accepted in Hacc. pose proof Hacc as Hchk. unfold check in Hacc.
+  destruct (check_body (mkCS [] (atom_vars (chead (rewrite c))) []) (cbody (rewrite c))
+              (cbody (replace_wildcards (rewrite c)))) as [st|] eqn:Eb; [|discriminate].
+  assert (Hlt : forall o v, In o (cbody (rewrite c)) -> In v (premise_vars o) -> v < fresh_base (rewrite c)).
+  { intros o v Ho Hv. apply fresh_base_gt. unfold clause_vars. apply in_or_app; right.
+    apply in_or_app; left. apply in_flat_map. eauto. }
+  assert (Hi0 : Inv (mkCS [] (atom_vars (chead (rewrite c))) []) []) by (split; simpl; intros w []).
+  assert (Hu0 : unb_from [] (fresh_base (rewrite c))) by (intros w _; reflexivity).
+  destruct (chain_sound Sneg I (cbody (rewrite c)) (fresh_base (rewrite c)) _ st 0%nat [] s
+              Hbase Hlt Eb Haf Hi0 eq_refl Hu0 Hsat) as (_ & Hws & Hlit).
+  assert (Hlit' : forall o, In o (cbody c) -> lit_true Sneg I o s).
+  { intros o Ho. apply Hlit. eapply Permutation_in; [apply Permutation_sym; exact HP|exact Ho]. }
+  assert (Hsig : forall v, lookup v (restrict (named_vars c) s)
+                           = if memZ v (named_vars c) then lookup v s else None)
+    by (intros; apply lookup_restrict).
+  assert (Hsw : lookup wild (restrict (named_vars c) s) = None)
+    by (rewrite Hsig; destruct (memZ wild (named_vars c)); auto).
+  split.
+  - split.
+    + intros v Hv. rewrite Hsig. rewrite (proj2 (memZ_In _ _) Hv).
+      apply named_vars_in in Hv as [[Hb Hnw]|[Hh Hd]].
+      * apply in_flat_map in Hb as (o & Ho & Hvo). exact (lit_true_binds _ _ _ _ _ (Hlit' o Ho) Hvo Hnw).
+      * apply (accepted_binds_lemma (rewrite c) Sneg (fun _ => I) sols Hchk Haf Hsol s Hin0 v).
+        -- rewrite rewrite_head. exact Hh.
+        -- rewrite let_defs_rewrite. exact Hd.
+    + intros v c0 Hvc. unfold restrict in Hvc. apply filter_In in Hvc as [_ Hm]. simpl in Hm.
+      apply memZ_In, Hm.
+  - intros p Hp.
+    destruct (Forall2_In_r _ _ _ _ (replace_wildcards_rel c) Hp) as (o & Ho & m & Hm & ->).
+    apply lit_true_holds.
+    + pose proof (fresh_base_pos c). lia.
+    + intros w Hwm. rewrite Hsig. destruct (memZ w (named_vars c)) eqn:E; [|reflexivity].
+      apply memZ_In, named_vars_clause, fresh_base_gt in E. lia.
+    + exact Hsw.
+    + apply (lit_true_coinc _ _ _ s); [|apply Hlit', Ho]. intros v Hv. rewrite Hsig.
+      destruct (memZ v (named_vars c)) eqn:E; [reflexivity|].
+      destruct (Z.eq_dec v wild) as [->|Hnw]; [exact Hws|]. exfalso.
+      assert (X : In v (named_vars c)).
+      { apply named_vars_in. left. split; [apply in_flat_map; eauto|exact Hnw]. }
+      apply memZ_In in X. congruence.
 Qed.
